@@ -3,8 +3,8 @@
 // operation is known), every state-reading or state-changing backend operation on the lock directory / the
 // heartbeat file blocks until the scheduler releases it, and the scheduler is told when the operation has
 // been executed and what it returned.  Stat results carry a fabricated ModTime decided by the scheduler
-// (the "staleness verdict" of the step), so that staleness is an input of the schedule and not a function of
-// the wall clock.
+// (now minus the logical age given by the step), so that the age the library computes is an input of the
+// schedule and not a function of the wall clock — while the library's own threshold arithmetic stays in play.
 package lsched
 
 import (
@@ -38,7 +38,8 @@ type Pending struct {
 	Op    string // Mkdir Remove Stat Open Readdir OpenFile Chtimes
 	Class string // "dir" (the lock directory) or "hb" (the heartbeat file)
 	N     int    // Readdir count argument
-	stale bool
+	age   time.Duration // Stat: the ModTime presented is (now - age)
+	StatAt time.Time    // Stat: the instant "now" used for the fabricated ModTime
 	rel   chan struct{}
 	Res   string // result class, filled when done
 	done  chan struct{}
@@ -150,11 +151,11 @@ func (s *Sched) WaitPending(a Actor, alt func() bool, timeout time.Duration) (*P
 	}
 }
 
-// Release lets the pending operation run (with the given staleness verdict for a Stat) and waits until it
-// has been executed; returns its result class.
-func (s *Sched) Release(p *Pending, stale bool) string {
+// Release lets the pending operation run (a Stat presents a ModTime that is age old: the logical clock of the
+// scenario) and waits until it has been executed; returns its result class.
+func (s *Sched) Release(p *Pending, age time.Duration) string {
 	s.mu.Lock()
-	p.stale = stale
+	p.age = age
 	delete(s.pend, p.Actor)
 	select {
 	case <-p.rel:
@@ -301,11 +302,8 @@ func (f *Fs) Stat(name string) (os.FileInfo, error) {
 			res = "isfile"
 		}
 		if p != nil {
-			mt := time.Now()
-			if p.stale {
-				mt = mt.Add(-time.Hour)
-			}
-			fi = &info{FileInfo: fi, mt: mt}
+			p.StatAt = time.Now()
+			fi = &info{FileInfo: fi, mt: p.StatAt.Add(-p.age)}
 		}
 	}
 	f.S.leave(p, res)
